@@ -64,7 +64,7 @@ def gen(tape: Tape, tier: str) -> dict:
     elif kind == "b":
         funcs = SUM_FAMILY + MINMAX + BOOL + BOOL + ["nanfirst", "nanlast"] + VAR_FAMILY[:2]
     else:
-        funcs = SUM_FAMILY + VAR_FAMILY + PROD_FAMILY + MINMAX + ARG + FIRSTLAST
+        funcs = SUM_FAMILY + VAR_FAMILY + PROD_FAMILY + MINMAX + ARG + FIRSTLAST + ["median", "nanmedian", "quantile", "nanquantile"]
     alphabet = [0, 1, 2, 3] if kind in "iu" else None
     case = gen_reduce_case(
         tape,
@@ -89,7 +89,7 @@ def gen(tape: Tape, tier: str) -> dict:
         pass
     # dtype= keyword
     dk = tape.choice("gen.dtypekw", [None, None, "narrower", "wider"])
-    if dk is not None and kind in "iuf" and func not in ARG + BOOL + ["count"]:
+    if dk is not None and kind in "iuf" and func not in ARG + BOOL + ["count", "median", "nanmedian", "quantile", "nanquantile"]:
         if kind == "f":
             kw["dtype"] = "f4" if dk == "narrower" else "f8"
         else:
@@ -224,7 +224,8 @@ def run(case, tape: Tape, ctx):
             if isinstance(te.exc, OverflowError):
                 ctx.skip_slot("fill-not-representable")
                 continue
-            if isinstance(te.exc, REFUSALS) and not isinstance(te.exc, ValueError):
+            if isinstance(te.exc, REFUSALS):
+                # a refusal raised at compute time is C19's business, not a metadata question
                 ctx.skip_slot("refused-at-compute")
                 continue
             cls, msg, det = classify_exception(te)
@@ -254,7 +255,7 @@ def run(case, tape: Tape, ctx):
         ctx.probe("resolved_cohorts", plan.get("method") == "cohorts")
         ctx.probe("resolved_blockwise", plan.get("method") == "blockwise")
     # truthful also when two results that differ only in the requested dtype are evaluated in ONE graph
-    if func not in ARG + BOOL + ["count"] and arr.dtype.kind in "iuf" and case["variants"]:
+    if func not in ARG + BOOL + ["count", "median", "nanmedian", "quantile", "nanquantile"] and arr.dtype.kind in "iuf" and case["variants"]:
         v = case["variants"][0]
         sib = copy.deepcopy(_variant_case(case, v))
         skw = dict(sib["kwargs"])
